@@ -640,7 +640,10 @@ inline void Run(const Args& args, Result& res) {
                             s.cmd = (u16)cmd, s.m[unit] = 1;
                             (unit < 4 ? s.modi : s.modj) = mod;
                             u16 mask = MaskFor(mod);
-                            for (u16 high : {(u16)0x0000, (u16)0x6400, (u16)0xFE00}) {
+                            // (a one-word buffer, modulo value 0, has no alignment: it may sit at an odd address)
+                            for (u16 high : {(u16)0x0000, (u16)0x6400, (u16)0xFE00, (u16)0x0001, (u16)0x6401, (u16)0xFFFF}) {
+                                if ((high & 1) && mask != 0)
+                                    continue;
                                 for (u32 off = 0; off <= mask; ++off) {
                                     s.r[unit] = (u16)((high & ~mask) | off);
                                     for (int code : {1, 2, 0})
